@@ -11,6 +11,7 @@ from typing import Dict, List, Optional
 from sa.consteval import fold_class
 from sa.kernels import MODULE, Kernel, extract, method_name
 from sa.loader import AnalysisError, Unsupported, norm_text, dotted_name
+from sa.members import self_attr
 from sa.report import where
 
 DT = 'torchtree.evolution.datatype'
@@ -161,6 +162,9 @@ def check_kernel(ctx, rep, name: str, k: Kernel):
                   f"found axis {r['category_axis']}")
     rep.check('C01.K', f"{name}::weights-outside-log-sum-over-sites", r['weights_multiply_log'] and r['outer_axis'] == -1, W, r,
               f"{name}: pattern weights must multiply the per-site log-likelihood and the sum must run over the site axis (-1)")
+    rep.check('C01.K', f"{name}::log-of-the-site-likelihood-itself", not r.get('log_argument_altered'), W, {'wrappers': r.get('log_argument_altered')},
+              f"{name}: the site likelihood is passed through {r.get('log_argument_altered')} before the log: a likelihood below the bound is replaced by the bound, so the value "
+              f"is no longer the marginal likelihood — and an underflow to zero no longer gives -inf, which is what switches the model to the rescaled kernels")
     if k.scaler is not None:
         ok = r.get('scaler_term') is not None and bool(r.get('scaler_inside_weighted_sum')) and bool(r.get('scaler_is_sum_log_cat'))
         rep.check('C01.K', f"{name}::log-scalers-are-per-site-terms-inside-the-weighted-sum", ok, W, {'scaler_term': r.get('scaler_term'), 'added_after_weights': r.get('term_added_after_weights')},
@@ -316,6 +320,45 @@ def counter_keys_are_raw_columns(fn, counter='count_dict'):
     return True, facts
 
 
+ALTERING = ('clamp', 'clamp_min', 'clamp_max', 'clip', 'abs', 'relu', 'round', 'floor', 'ceil', 'nan_to_num', 'maximum', 'minimum', 'fmax', 'fmin', 'max', 'min', 'where', 'exp', 'log', 'softplus')
+
+
+def check_branch_length_accessors(ctx, rep):
+    """C01.B — a tree model whose branch lengths ARE a parameter hands that parameter's tensor to the likelihood as it is (views allowed): a floor or clamp inside the
+    accessor evaluates the likelihood of another tree than the one the parameter describes"""
+    n = 0
+    for cls in sorted(ctx.classes.classes.values(), key=lambda c: c.qualname):
+        if not cls.module.name.startswith('torchtree.evolution.tree_model') or cls.is_abstract():
+            continue
+        r = cls.resolve('branch_lengths')
+        if r is None or r[0] is not cls:
+            continue
+        fn = r[1]
+        rets = [x for x in ast.walk(fn) if isinstance(x, ast.Return) and x.value is not None]
+        body = [b for b in fn.body if not (isinstance(b, ast.Expr) and isinstance(b.value, ast.Constant))]
+        if len(rets) != 1 or len(body) != 1:
+            continue        # computed branch lengths (time trees): decided by C06
+        e = rets[0].value
+        wrappers = []
+        while True:
+            if isinstance(e, ast.Call) and isinstance(e.func, ast.Attribute) and e.func.attr in ('expand', 'reshape', 'view', 'unsqueeze', 'squeeze', 'contiguous', 'clone', 'to', 'detach'):
+                e = e.func.value
+            elif isinstance(e, ast.Call) and isinstance(e.func, ast.Attribute) and e.func.attr in ALTERING:
+                wrappers.append(e.func.attr)
+                e = e.func.value if not (isinstance(e.func.value, ast.Name) and e.func.value.id == 'torch') else (e.args[0] if e.args else e)
+            else:
+                break
+        is_param = isinstance(e, ast.Attribute) and e.attr == 'tensor' and self_attr(e.value) is not None
+        if not is_param:
+            continue
+        n += 1
+        rep.check('C01.B', f"{cls.name}.branch_lengths::returns-the-parameter-values", not wrappers, where(r[0].module, rets[0]), {'returned': ast.unparse(rets[0].value)[:100], 'wrappers': wrappers},
+                  f"{cls.name}.branch_lengths() returns `{ast.unparse(rets[0].value)[:80]}`: the branch-length parameter goes through {wrappers} on its way to the likelihood, so the "
+                  f"likelihood is that of a tree with other branch lengths than the parameter holds (below the bound the parameter has no effect at all)")
+    if n < 1:
+        rep.incomplete('C01.B', 'branch-length-accessors', '', 'no tree model returning its branch-length parameter found')
+
+
 def check_compress(ctx, rep):
     m = ctx.prog.module('torchtree.evolution.site_pattern')
     fn = m.functions.get('compress')
@@ -369,7 +412,7 @@ def run(ctx, rep):
     except Unsupported as u:
         rep.undecided('C01.K', 'kernels', f"line {getattr(u.node, 'lineno', 0)}", str(u))
         return
-    for f, rule in ((check_assembly, 'C01.B'), (check_compress, 'C01.W')):
+    for f, rule in ((check_assembly, 'C01.B'), (check_branch_length_accessors, 'C01.B'), (check_compress, 'C01.W')):
         try:
             f(ctx, rep)
         except Unsupported as u:
@@ -413,3 +456,10 @@ def run(ctx, rep):
             c11.check_handlers(ctx, RuleProxy(rep, 'C01.H', 'handlers::'), kinds, cls)
     if nh < 15:
         rep.incomplete('C01.H', '*', '', f"only {nh} model classes found")
+    # C01.T (ambiguities off) — the default of TreeLikelihoodModel is use_ambiguities=False: the tip vector of every symbol that stands for ONE state must still be that
+    # state's indicator (C02.M rules: partial() with the flag off against the encoding tables, all 128 code points, and the lookup data types)
+    try:
+        c02.check_table_datatypes(ctx, RuleProxy(rep, 'C01.T', 'ambiguities-off::'))
+        c02.check_lookup_datatypes(ctx, RuleProxy(rep, 'C01.T', 'ambiguities-off::'))
+    except Unsupported as u:
+        rep.undecided('C01.T', 'ambiguities-off', '', str(u))
